@@ -73,6 +73,10 @@ pub fn replay_policy_trees<J: Fn(&crate::tree::E) -> Verdict>(st: &mut Stats, ju
 /// Thorough tier: a work-bounded libFuzzer campaign (`procs` processes x `runs` executions).
 /// Crashes become failures after a strict in-process re-run; time-outs/OOMs are inconclusive.
 pub fn campaign(target: &str, seed: u64, runs: u64, procs: usize, max_len: usize, st: &mut Stats) {
+    // (one campaign per check run: the environment runs of the same check do not repeat it)
+    if crate::util::current_environment().is_some() {
+        return;
+    }
     let bin = format!("{}/{target}", fuzz_bin_dir());
     if !std::path::Path::new(&bin).exists() {
         st.oracle_bugs.push(format!("fuzz target {bin} is not built (cargo +nightly fuzz build failed?)"));
